@@ -17,6 +17,88 @@ from harness.props.c14 import floatify, gen, numeric_doc  # noqa: E402
 from harness.real import evaluate  # noqa: E402
 
 
+def canon_text(s: str) -> str:
+    """order-insensitive form of a printed expression: the terms of every sum and the factors of every product, at every
+    parenthesis level, are sorted.  sympy's printer orders the arguments of Add/Mul with a sort key under which `N + 1` and `N + 1.0`
+    tie; ties are broken by hash order, so the TEXT of one and the same expression can differ between processes (observed at
+    thorough seed 24) — a property of sympy's printing, not of bartiq's operations, and not a difference of the exported value"""
+    def split_top(t, seps):
+        out, depth, cur, i = [], 0, "", 0
+        while i < len(t):
+            ch = t[i]
+            if ch in "([":
+                depth += 1
+            elif ch in ")]":
+                depth -= 1
+            hit = next((sp for sp in seps if depth == 0 and t.startswith(sp, i)), None)
+            if hit is not None and cur.strip():
+                out.append((cur, hit))
+                cur = ""
+                i += len(hit)
+                continue
+            cur += ch
+            i += 1
+        out.append((cur, ""))
+        return out
+
+    def canon(t):
+        t = t.strip()
+        terms = split_top(t, [" + ", " - "])
+        if len(terms) > 1:
+            signed, sign = [], "+"
+            for body, sep in terms:
+                signed.append(sign + canon(body))
+                sign = "-" if sep == " - " else "+"
+            return " ".join(sorted(signed))
+        # products / quotients: split at single '*' and at '/' (never inside '**'), keep the operator with its factor
+        parts, depth, cur, i, op = [], 0, "", 0, "*"
+        while i < len(t):
+            ch = t[i]
+            if ch in "([":
+                depth += 1
+            elif ch in ")]":
+                depth -= 1
+            single_star = ch == "*" and not t.startswith("**", i) and not (i > 0 and t[i - 1] == "*")
+            if depth == 0 and (single_star or ch == "/") and cur.strip():
+                parts.append((op, cur))
+                cur, op = "", ch
+            else:
+                cur += ch
+            i += 1
+        parts.append((op, cur))
+        if len(parts) > 1:
+            return "".join(sorted(o + canon(x) for o, x in parts))
+        # descend into one level of parentheses / call arguments
+        if "(" in t:
+            a = t.index("(")
+            depth, j = 0, a
+            while j < len(t):
+                depth += t[j] == "("
+                depth -= t[j] == ")"
+                if depth == 0:
+                    break
+                j += 1
+            inner = ", ".join(canon(x) for x, _ in split_top(t[a + 1:j], [", "]))
+            return t[:a] + "(" + inner + ")" + (canon(t[j + 1:]) if t[j + 1:].strip() else "")
+        return t
+
+    try:
+        return canon(s)
+    except Exception:
+        return s
+
+
+def canon_doc(obj):
+    """apply canon_text to every string of a JSON-like object that looks like an expression"""
+    if isinstance(obj, dict):
+        return {k: canon_doc(v) for k, v in obj.items()}
+    if isinstance(obj, (list, tuple)):
+        return [canon_doc(v) for v in obj]
+    if isinstance(obj, str) and any(c in obj for c in "+*("):
+        return canon_text(obj)
+    return obj
+
+
 def _shared_impl(x):
     """a user implementation that only handles numbers (raises on symbols: the call then stays unevaluated)"""
     return int(x) * 2 + 1
@@ -43,14 +125,14 @@ def export_digest(q, seed=0):
     if st != "ok":
         return "status:" + st
     try:
-        doc = r.to_qref().model_dump_json()
+        doc = json.dumps(canon_doc(json.loads(r.to_qref().model_dump_json())))
     except Exception as e:
         # listed C13 finding (port-variable inputs): fall back to a canonical dump of the dataclass tree
         def dump(cr):
             return {"name": cr.name, "inputs": list(cr.input_params), "children": [dump(c) for c in cr.children.values()],
                     "ports": {k: str(v.size) for k, v in cr.ports.items()}, "resources": {k: str(v.value) for k, v in cr.resources.items()},
                     "constraints": [(str(c.lhs), str(c.rhs)) for c in cr.constraints]}
-        doc = json.dumps(dump(r.routine))
+        doc = json.dumps(canon_doc(dump(r.routine)))
     # aggregation as a post-processing stage, with a NESTED dictionary whose composite entry is listed before its components, the
     # components having different resource types and sharing a target: the exported document must not depend on the process either
     try:
@@ -63,12 +145,12 @@ def export_digest(q, seed=0):
                 doc += "aggregate:" + st2
                 continue
             try:
-                doc += r2.to_qref().model_dump_json()
+                doc += json.dumps(canon_doc(json.loads(r2.to_qref().model_dump_json())))
             except Exception:
                 def dump2(cr):
                     return {"name": cr.name, "children": [dump2(c) for c in cr.children.values()],
                             "resources": {k: (v.type.value, str(v.value)) for k, v in sorted(cr.resources.items())}}
-                doc += json.dumps(dump2(r2.routine))
+                doc += json.dumps(canon_doc(dump2(r2.routine)))
     except ImportError as e:
         doc += "aggregate-unavailable:" + str(e)
     # evaluation with float-typed assignments is part of the observed history-sensitive surface
